@@ -28,6 +28,27 @@ def parabola(p0, p1, p2, x):
             + y2 * (x - x0) * (x - x1) / ((x2 - x0) * (x2 - x1)))
 
 
+EPS = 2.220446049250313e-16
+
+
+def cond_tol(nodes, p, fx):
+    """rounding allowance of evaluating piece p at fx in floating point: 16 eps x (|a| x^2 + |b| |x| + |c|) for the piece's
+    exact monomial coefficients.  For the shipped tables this is ~1e-15 and irrelevant; for custom tables with nodes a
+    thousandth of a Mach apart and large jumps the coefficients reach 1e6 and cancel - "equal to float rounding" then means
+    rounding of THAT evaluation (false alarm of the fixed 1e-9 band at thorough seed 5, DESIGN 9.2)"""
+    if p == 0:
+        (x0, y0), (x1, y1) = nodes[0], nodes[1]
+        b = (y1 - y0) / (x1 - x0)
+        a, c = Fraction(0), y0 - b * x0
+    else:
+        (x0, y0), (x1, y1), (x2, y2) = nodes[p - 2], nodes[p - 1], nodes[p]
+        d0, d1, d2 = (x0 - x1) * (x0 - x2), (x1 - x0) * (x1 - x2), (x2 - x0) * (x2 - x1)
+        a = y0 / d0 + y1 / d1 + y2 / d2
+        b = -(y0 * (x1 + x2) / d0 + y1 * (x0 + x2) / d1 + y2 * (x0 + x1) / d2)
+        c = y0 * x1 * x2 / d0 + y1 * x0 * x2 / d1 + y2 * x0 * x1 / d2
+    return 16 * EPS * float(abs(a) * fx * fx + abs(b) * abs(fx) + abs(c))
+
+
 def pieces_matching(nodes, x, value, only=None):
     """ops-numbered pieces (0 = line through the first two nodes, m = parabola through 1-based nodes m-1,m,m+1)
     on which `value` lies at x (exact rational evaluation, 1e-9 relative)"""
@@ -42,7 +63,7 @@ def pieces_matching(nodes, x, value, only=None):
             ex = parabola(nodes[p - 2], nodes[p - 1], nodes[p], fx)
         else:
             continue
-        if abs(value - float(ex)) <= 1e-9 * max(1.0, abs(float(ex))):
+        if abs(value - float(ex)) <= 1e-9 * max(1.0, abs(float(ex))) + cond_tol(nodes, p, fx):
             out.append(p)
     return out
 
@@ -148,7 +169,8 @@ def real_traces(chk, rng, n_custom):
             at_node = x in mach
             node_exact = True
             if at_node:
-                node_exact = abs(cd - pts[mach.index(x)][1]) <= 1e-9 * max(1.0, pts[mach.index(x)][1])   # parabola coefficients of close nodes are ill-conditioned
+                ct = max([cond_tol(fpts, p_, Fraction(x)) for p_ in sorted(set(near)) if p_ == 0 or 2 <= p_ <= n - 1] or [0.0])
+                node_exact = abs(cd - pts[mach.index(x)][1]) <= 1e-9 * max(1.0, pts[mach.index(x)][1]) + ct
             within = True
             if shipped and mach[0] <= x <= mach[-1]:
                 i = max(k for k in range(n) if mach[k] <= x)
